@@ -13,7 +13,7 @@
 (***************************************************************************)
 EXTENDS Head, Json, IOUtils
 
-CONSTANTS Parts,     \* which parts of the result this run judges: "st" "n" "err" "fields" "headers" "count" "digits"
+CONSTANTS Parts,     \* which parts of the result this run judges: "st" "n" "err" "fields" "headers" "count" "digits" "allocs" "slots"
           JKinds     \* which kinds (0 req, 1 resp, 2 hdrs, 3 chunk) are judged
 Rec == ndJsonDeserialize(IOEnv.TRACE)
 VARIABLES l, s
@@ -29,6 +29,8 @@ On(p) == p \in Parts
 ResultOk(e) ==
   KindId(s.kind) \in JKinds =>
     /\ ~e.panicked
+    /\ On("allocs") => e.allocs = 0            \* C19: no heap allocation, whatever the size
+    /\ On("slots") => e.slots_ok = 1           \* C17: canaries, untouched slots beyond the count
     /\ On("st") => StOf(e.st) = s.st
     /\ On("n") => /\ s.st = "C" => e.st # 0
                   /\ e.st = 1 => s.st = "C" /\ e.n = s.n
